@@ -135,21 +135,29 @@ class WriteTracer:
         self.writes = []
         self._saved = []
 
+    _roots = None
+
+    @classmethod
+    def root_classes(cls):
+        if cls._roots is None:
+            import sys
+            classes = set()
+            for name, mod in list(sys.modules.items()):
+                if name == "valida" or name.startswith("valida."):
+                    for v in vars(mod).values():
+                        if (
+                            isinstance(v, type)
+                            and v.__module__.startswith("valida")
+                            and not issubclass(v, (enum.Enum, BaseException))
+                        ):
+                            classes.add(v)
+            # install on the root classes only (those without a valida base): every valida
+            # object finds exactly one wrapper through its MRO, so a write is recorded once
+            cls._roots = [c for c in classes if not any(b in classes for b in c.__mro__[1:])]
+        return cls._roots
+
     def __enter__(self):
-        import sys
-        classes = set()
-        for name, mod in list(sys.modules.items()):
-            if name == "valida" or name.startswith("valida."):
-                for v in vars(mod).values():
-                    if (
-                        isinstance(v, type)
-                        and v.__module__.startswith("valida")
-                        and not issubclass(v, (enum.Enum, BaseException))
-                    ):
-                        classes.add(v)
-        # install on the root classes only (those without a valida base): every valida object
-        # finds exactly one wrapper through its MRO, so a write is recorded once
-        roots = [c for c in classes if not any(b in classes for b in c.__mro__[1:])]
+        roots = self.root_classes()
         tracer = self
 
         def __setattr__(self, k, v):
